@@ -270,6 +270,12 @@ func (o *Origins) isNonNilErrorAt(ev ssa.Value, r *ssa.Return) bool {
 	if isNilConst(ev) {
 		return false
 	}
+	// package-level error variables initialised once with errors.New / fmt.Errorf / a struct value
+	if ld, ok := ev.(*ssa.UnOp); ok && ld.Op == token.MUL {
+		if g, ok := ld.X.(*ssa.Global); ok && o.p.globalNonNilError(g) {
+			return true
+		}
+	}
 	// a non-pointer value converted to the error interface is never nil
 	if mi, ok := ev.(*ssa.MakeInterface); ok {
 		if _, isPtr := mi.X.Type().Underlying().(*types.Pointer); !isPtr {
@@ -447,4 +453,50 @@ func (o *Origins) reachingValues(cell *ssa.Alloc, at ssa.Instruction) ([]ssa.Val
 	}
 	scan(at.Block(), instrIndex(at))
 	return out, complete
+}
+
+// globalNonNilError: every store to the package-level variable (they are in package initialisers)
+// stores a certainly non-nil error.
+func (p *Program) globalNonNilError(g *ssa.Global) bool {
+	if v, ok := p.globalErr[g]; ok {
+		return v
+	}
+	if p.globalErr == nil {
+		p.globalErr = map[*ssa.Global]bool{}
+	}
+	n := 0
+	ok := true
+	var fns []*ssa.Function
+	fns = append(fns, p.Funcs...)
+	if g.Pkg != nil {
+		if init := g.Pkg.Func("init"); init != nil {
+			fns = append(fns, init)
+		}
+	}
+	for _, f := range fns {
+		for _, b := range f.Blocks {
+			for _, in := range b.Instrs {
+				st, isSt := in.(*ssa.Store)
+				if !isSt || st.Addr != ssa.Value(g) {
+					continue
+				}
+				n++
+				switch v := st.Val.(type) {
+				case *ssa.Call:
+					if sc := v.Call.StaticCallee(); sc == nil || !(sc.String() == "errors.New" || sc.String() == "fmt.Errorf") {
+						ok = false
+					}
+				case *ssa.MakeInterface:
+					if _, isPtr := v.X.Type().Underlying().(*types.Pointer); isPtr {
+						ok = false
+					}
+				default:
+					ok = false
+				}
+			}
+		}
+	}
+	res := ok && n > 0
+	p.globalErr[g] = res
+	return res
 }
